@@ -85,7 +85,7 @@ Inductive presult :=
 | PBadCount          (* strconv error *)
 | PBadLock           (* "Could not parse lock hash" *)
 | PBadGcGen          (* "Could not parse GC generation hash" *)
-| PPanic.            (* hash.Parse(root) panics on a malformed root *)
+| PPanic.            (* malformed root: rejected last — hash.Parse(root) panics; a tree that reports "Could not parse root hash" instead is the same outcome here *)
 
 (* parseManifest: version prefix, at most 8 one-byte reads *)
 Inductive vresult := VOk (v rest : bytes) | VEof | VCorrupt.
